@@ -49,6 +49,28 @@ def names_profile(env):
     return p
 
 
+def ascii_names_profile(env):
+    """one Boolean symbol per printable ASCII character that is not a letter or digit: the character between two
+    letters, and the character alone (| and backslash cannot be written in SMT-LIB symbols and are left out)"""
+    p = Profile("ascii-names", env)
+    m = p.m
+    names = []
+    for c in range(33, 127):
+        ch = chr(c)
+        if ch.isalnum() or ch in "|\\":
+            continue
+        names.append("n%sm" % ch)
+        names.append(ch)
+        names.append("%s1" % ch)
+    names = [n for n in names if not smtref.undeclarable(n)]
+    p.leaf(BOOL, p.sym("plain", BOOL))
+    p.leaf(BOOL, *[p.sym(n, BOOL) for n in names])
+    p.op("not", [BOOL], BOOL, lambda m, a: m.Not(a))
+    plain = m.Symbol("plain")
+    p.op("orp", [BOOL], BOOL, lambda m, a: m.Or(a, m.And(plain, a)))
+    return p
+
+
 def fnames_profile(env):
     """uninterpreted functions whose names are those of the DAG printer's let variables (functions and
     constants share one name space in SMT-LIB), applied below shared sub-terms"""
@@ -371,6 +393,7 @@ def parts(ctx):
     A(dict(name="uf-d2", profile=P.uf_profile, depth=2, shards=8, dom={INT: (0, 1, 2)}, max_new=mx))
     A(dict(name="quant-d2", profile=P.quant_profile, depth=2, shards=16, dom={INT: (0, 1)}, max_new=1))
     A(dict(name="names-d2", profile=names_profile, depth=2, shards=16, dom={INT: (0, 1)}, max_new=1))
+    A(dict(name="ascii-names-d1", profile=ascii_names_profile, depth=1, shards=8))
     A(dict(name="letbinder-d3", profile=letbinder_profile, depth=3, shards=16, dom={INT: (0, 1)},
            mid_ops=lambda o: o.name in ("not", "and", "or", "le", "plus"),
            top_ops=lambda o: o.name.startswith(("forall", "exists"))))
